@@ -1,6 +1,623 @@
-//! Harness for property C20 (stub: not built yet).
+//! Harness for property C20 — belief is projected: silence is not rejection, repetition is not
+//! support.
+//!
+//! One case = a list of op lines (the line protocol of `lean/AndaVerif/Drv/C20.lean`).
+//! For every case the harness
+//!   1. runs the real `anda_cognitive_nexus` projection (`Context::project_belief` /
+//!      `project_slot` over rows written with `Store::insert`, policies built directly or through
+//!      `Policy::from_settings`; the `kml` route writes through `MUTATE`/`RETRACT` and reads through
+//!      `FIND(?b) WHERE { ?b BELIEF (...) } WITH EPISTEMIC {...} FOR TIME ...`),
+//!   2. pipes the same lines to the Lean model driver and compares (correspondence),
+//!   3. evaluates an independent oracle of the property (eligibility from the statement,
+//!      union-find connected components, exact rational scores, the classification thresholds),
+//!   4. re-runs the real code on derived histories: permutations of the recording order, the
+//!      history without its ineligible Assertions, one repeated Assertion more, one confidence
+//!      raised — and checks the laws the property states about them.
+mod oracle;
+mod ops;
+mod world;
+
+use ops::*;
+use oracle::*;
+use std::sync::mpsc;
+use vh_common::serde_json::{Value, json};
+use vh_common::{Args, ModelProc, Report, Rng};
+use world::World;
+
+pub const SCORE_EPS: f64 = 1e-9;
+
+/// What one evaluated case contributes to the report.
+#[derive(Default)]
+pub struct Outcome {
+    pub canon: String,
+    pub nontrivial: bool,
+    pub hits: Vec<String>,
+    pub model_compared: u64,
+    pub disagreement: Option<(String, String, String)>,
+    pub failures: Vec<Failure>,
+    pub f64_order_dependence: u64,
+    pub threshold_adjacent: u64,
+    pub f64_max_abs_err: f64,
+    pub bridge_lowered: u64,
+    pub rival_ineligible_unlisted: u64,
+    pub impl_runs: u64,
+    pub sample: Option<Value>,
+}
+
+#[derive(Clone, Debug)]
+pub struct Failure {
+    pub key: String,
+    pub what: String,
+    pub expected: String,
+    pub observed: String,
+}
+
+fn fail(out: &mut Outcome, key: &str, what: String, expected: String, observed: String) {
+    out.failures.push(Failure { key: key.to_string(), what, expected, observed });
+}
+
+/// Compares one model answer line with one implementation answer line.
+/// `None` = agree. Scores: exact fraction vs f64 within `SCORE_EPS`; the status is compared exactly
+/// unless the exact score sits on a threshold (a behaviour the rational model cannot exhibit).
+fn compare_lines(model: &str, imp: &str, adj: bool) -> Option<String> {
+    if model.contains(" | ") || imp.contains(" | ") {
+        let ms: Vec<&str> = model.split(" | ").collect();
+        let is: Vec<&str> = imp.split(" | ").collect();
+        if ms.len() != is.len() {
+            return Some("slot size".into());
+        }
+        for (m, i) in ms.iter().zip(is.iter()) {
+            if let Some(d) = compare_lines(m, i, adj) {
+                return Some(d);
+            }
+        }
+        return None;
+    }
+    let (Some(m), Some(i)) = (Ans::parse(model), Ans::parse(imp)) else {
+        return if model == imp { None } else { Some("line".into()) };
+    };
+    if m.prop != i.prop {
+        return Some("prop".into());
+    }
+    if m.sg != i.sg || m.og != i.og {
+        return Some("groups".into());
+    }
+    if (m.sup.value() - i.sup.value()).abs() > SCORE_EPS || (m.opp.value() - i.opp.value()).abs() > SCORE_EPS {
+        return Some("score".into());
+    }
+    if m.st != i.st && !adj {
+        return Some("status".into());
+    }
+    if m.s != i.s || m.o != i.o || m.u != i.u {
+        return Some("ledger".into());
+    }
+    if m.x != i.x {
+        return Some("excluded".into());
+    }
+    if m.pol != i.pol {
+        return Some("policy".into());
+    }
+    if m.at != i.at {
+        return Some("valid_at".into());
+    }
+    None
+}
+
+/// Runs the real code on `ops`; a panic is reported as the single line `panic`.
+fn run_impl(world: &mut World, ops: &[Op], out: &mut Outcome) -> Vec<String> {
+    out.impl_runs += 1;
+    world.run(ops)
+}
+
+/// Everything that is checked for one case.
+fn check_case(world: &mut World, model: &mut Option<ModelProc>, lines: &[String], route_kml: bool, deep: bool) -> Outcome {
+    let mut out = Outcome::default();
+    let parsed: Vec<Op> = lines.iter().map(|l| Op::parse(l)).collect();
+    out.canon = lines.join("\n");
+    let imp = if route_kml {
+        out.impl_runs += 1;
+        world.run_kml(&parsed)
+    } else {
+        run_impl(world, &parsed, &mut out)
+    };
+
+    // ---- the oracle's own evaluation of the same history --------------------------------------
+    let exp = oracle_run(&parsed);
+    debug_assert_eq!(exp.len(), imp.len());
+
+    // ---- correspondence with the Lean model ----------------------------------------------------
+    if let Some(m) = model.as_mut() {
+        let _ = m.ask("reset");
+        let mut model_out = Vec::with_capacity(lines.len());
+        for l in lines {
+            model_out.push(m.ask(l));
+        }
+        out.model_compared += 1;
+        for (k, ((mo, io), ex)) in model_out.iter().zip(imp.iter()).zip(exp.iter()).enumerate() {
+            let adj = ex.as_ref().map(|e| e.iter().any(|p| p.threshold_adjacent)).unwrap_or(false);
+            if let Some(d) = compare_lines(mo, io, adj) {
+                out.disagreement = Some((format!("{} (op #{k}: {})", d, lines[k]), mo.clone(), io.clone()));
+                break;
+            }
+        }
+    }
+
+    // ---- oracle: the property evaluated on the implementation's answers -----------------------
+    let mut any_answer = false;
+    for (k, (io, ex)) in imp.iter().zip(exp.iter()).enumerate() {
+        if io == "panic" {
+            fail(&mut out, "panic", format!("the projection panicked at op #{k}: {}", lines[k]), "an answer".into(), "panic".into());
+            continue;
+        }
+        let Some(ex) = ex else { continue };
+        let answers: Vec<&str> = io.split(" | ").collect();
+        if answers.len() != ex.len() {
+            if !(ex.is_empty() && io == "-") {
+                fail(&mut out, "slot-size", format!("slot projection size at op #{k}"), format!("{}", ex.len()), io.clone());
+            }
+            continue;
+        }
+        for (a, e) in answers.iter().zip(ex.iter()) {
+            let Some(ans) = Ans::parse(a) else {
+                fail(&mut out, "unreadable", format!("unreadable answer at op #{k}"), "an answer line".into(), a.to_string());
+                continue;
+            };
+            any_answer = true;
+            check_answer(&mut out, k, &lines[k], &ans, e);
+            out.hits.push(format!("status:{}", ans.st));
+            out.hits.push(format!("sg:{}", ans.sg.min(6)));
+            out.hits.push(format!("og:{}", ans.og.min(6)));
+            if ans.sg + ans.og > 0 || !ans.u.is_empty() || !ans.x.is_empty() {
+                out.nontrivial = true;
+            }
+            for (_, r) in &ans.x {
+                out.hits.push(format!("excluded:{r}"));
+            }
+            if e.threshold_adjacent {
+                out.threshold_adjacent += 1;
+            }
+            let err = (ans.sup.value() - e.sup.value()).abs().max((ans.opp.value() - e.opp.value()).abs());
+            if err > out.f64_max_abs_err {
+                out.f64_max_abs_err = err;
+            }
+            out.rival_ineligible_unlisted += e.rival_ineligible as u64;
+        }
+    }
+    for op in &parsed {
+        out.hits.push(format!("op:{}", op.name()));
+    }
+    if !any_answer {
+        return out;
+    }
+    if out.sample.is_none() {
+        out.sample = Some(json!({"ops": lines, "impl": imp}));
+    }
+    if !deep || route_kml {
+        return out;
+    }
+
+    // ---- derived histories --------------------------------------------------------------------
+    let mut rng = Rng::new(fnv(&out.canon));
+    let a_idx: Vec<usize> = parsed.iter().enumerate().filter(|(_, o)| matches!(o, Op::A(_))).map(|(i, _)| i).collect();
+    let has_mut = parsed.iter().any(|o| matches!(o, Op::Raise(..) | Op::Status(..)));
+    let last_answers = |outs: &[String]| -> Vec<Ans> {
+        outs.iter().rev().find(|l| l.starts_with("st=") || l.starts_with("p=")).map(|l| l.split(" | ").filter_map(Ans::parse).collect()).unwrap_or_default()
+    };
+    let base_final = last_answers(&imp);
+    let exp_final: Vec<Expect> = exp.iter().rev().flatten().next().cloned().unwrap_or_default();
+    let adj_final = exp_final.iter().any(|e| e.threshold_adjacent);
+
+    // (a) order independence: same multiset of Assertions, other recording orders. Only for
+    //     histories whose Assertions all precede the projections and are not mutated afterwards.
+    let first_proj = parsed.iter().position(|o| matches!(o, Op::Project(_) | Op::SlotProject)).unwrap_or(parsed.len());
+    let simple = !has_mut && a_idx.iter().all(|&i| i < first_proj);
+    if simple && a_idx.len() >= 2 {
+        let perms = if a_idx.len() <= 3 { all_perms(a_idx.len()) } else { (0..3).map(|_| { let mut p: Vec<usize> = (0..a_idx.len()).collect(); rng.shuffle(&mut p); p }).collect() };
+        for perm in perms {
+            if perm.iter().enumerate().all(|(i, &j)| i == j) {
+                continue;
+            }
+            // new position i holds old Assertion perm[i]; old ordinal -> new ordinal
+            let mut permuted = parsed.clone();
+            for (i, &j) in perm.iter().enumerate() {
+                permuted[a_idx[i]] = parsed[a_idx[j]].clone();
+            }
+            let mut new_of_old = vec![0usize; perm.len()];
+            for (i, &j) in perm.iter().enumerate() {
+                new_of_old[j] = i;
+            }
+            let outs = run_impl(world, &permuted, &mut out);
+            let got = last_answers(&outs);
+            out.hits.push("derived:permutation".into());
+            if got.len() != base_final.len() {
+                fail(&mut out, "order-dependent", format!("recording order {:?} changes the number of answers", perm), format!("{}", base_final.len()), format!("{}", got.len()));
+                continue;
+            }
+            for (b, g) in base_final.iter().zip(got.iter()) {
+                let g = g.renumbered(&|new| perm.get(new).copied().unwrap_or(new));
+                let _ = &new_of_old;
+                let same_groups = b.sg == g.sg && b.og == g.og;
+                let same_scores = (b.sup.value() - g.sup.value()).abs() <= SCORE_EPS && (b.opp.value() - g.opp.value()).abs() <= SCORE_EPS;
+                let same_sets = b.sets() == g.sets();
+                if !(same_groups && same_scores && same_sets) || (b.st != g.st && !adj_final) {
+                    let permuted_lines: Vec<String> = permuted.iter().map(|o| o.render()).collect();
+                    fail(&mut out, "order-dependent", format!("the answer depends on the recording order; permuted history: {}", permuted_lines.join(" ; ")), b.render_sets(), g.render_sets());
+                } else if b.st != g.st || b.sup.value().to_bits() != g.sup.value().to_bits() || b.opp.value().to_bits() != g.opp.value().to_bits() {
+                    out.f64_order_dependence += 1;
+                }
+            }
+        }
+    }
+
+    // (b) excluded Assertions contribute nothing: drop every Assertion the oracle finds ineligible
+    //     for every projection of the history (time and policy are fixed in simple histories).
+    if simple && !a_idx.is_empty() {
+        let inel = ineligible_everywhere(&parsed);
+        if !inel.is_empty() && inel.len() < a_idx.len() + 1 {
+            let dropped: Vec<Op> = parsed.iter().enumerate().filter(|(i, _)| !inel.contains(i)).map(|(_, o)| o.clone()).collect();
+            let outs = run_impl(world, &dropped, &mut out);
+            let got = last_answers(&outs);
+            out.hits.push("derived:drop-ineligible".into());
+            for (b, g) in base_final.iter().zip(got.iter()) {
+                if b.sg != g.sg || b.og != g.og || (b.st != g.st && !adj_final)
+                    || (b.sup.value() - g.sup.value()).abs() > SCORE_EPS || (b.opp.value() - g.opp.value()).abs() > SCORE_EPS
+                {
+                    fail(&mut out, "excluded-contributes", "removing the ineligible Assertions changes groups, scores or status".into(), b.render_sets(), g.render_sets());
+                }
+            }
+        }
+    }
+
+    // (c) repetition is not support; (d) monotone in a confidence. Both extend the history by one
+    //     op and one more projection of the same target, and compare the two last answers.
+    if let Some(last_proj) = parsed.iter().rposition(|o| matches!(o, Op::Project(_))) {
+        let Op::Project(target) = parsed[last_proj].clone() else { unreachable!() };
+        let base_final: Vec<Ans> = Ans::parse(&imp[last_proj]).into_iter().collect();
+        // the history up to and including that projection
+        let parsed: Vec<Op> = parsed[..=last_proj].to_vec();
+        let st = oracle_state(&parsed);
+        let elig = st.eligible_rows(target);
+        if !elig.is_empty() {
+            // (c) a repetition: same actor as, or Evidence already cited by, an eligible Assertion
+            //     of one side; same side.
+            let &(ri, opposing) = rng.pick(&elig);
+            let src = st.rows[ri].clone();
+            let mut rep = src.clone();
+            rep.status = 'a';
+            rep.visible = true;
+            rep.from = None;
+            rep.until = None;
+            if let Some(mode) = st.admitted_mode() {
+                rep.mode = mode;
+                match rng.below(3) {
+                    0 => {}
+                    1 => {
+                        if !src.evs.is_empty() {
+                            rep.actor = Some(90 + rng.below(5) as u32);
+                            rep.evs = vec![*rng.pick(&src.evs)];
+                        }
+                    }
+                    _ => {
+                        // a bridge: cite the Evidence of another eligible Assertion of that side too
+                        let same: Vec<&(usize, bool)> = elig.iter().filter(|(_, o)| *o == opposing).collect();
+                        let other = st.rows[rng.pick(&same).0].clone();
+                        rep.evs.extend(other.evs.iter().copied());
+                        rep.evs.sort();
+                        rep.evs.dedup();
+                    }
+                }
+                rep.conf = match rng.below(4) { 0 => -1, 1 => src.conf, 2 => rng.range(0, st.policy.den as i64), _ => (src.conf - 1).max(0) };
+                let mut ext = parsed.clone();
+                ext.push(Op::A(rep.clone()));
+                ext.push(Op::Project(target));
+                let outs = run_impl(world, &ext, &mut out);
+                let after = last_answers(&outs);
+                out.hits.push("derived:repetition".into());
+                if let (Some(b), Some(a)) = (base_final.last(), after.last()) {
+                    let law = repetition_law(&st, target, opposing, &rep);
+                    let (gb, ga, sb, sa) = if opposing { (b.og, a.og, b.opp.value(), a.opp.value()) } else { (b.sg, a.sg, b.sup.value(), a.sup.value()) };
+                    let ext_lines: Vec<String> = ext.iter().map(|o| o.render()).collect();
+                    if law.shares_key && ga > gb {
+                        fail(&mut out, "repetition-adds-group", format!("an Assertion that shares an actor or Evidence with its side increased the group count; history: {}", ext_lines.join(" ; ")), format!("groups <= {gb}"), format!("groups = {ga}"));
+                    }
+                    if law.shares_key && !law.stronger && sa > sb + SCORE_EPS {
+                        fail(&mut out, "repetition-raises-score", format!("an Assertion no stronger than its group raised the score; history: {}", ext_lines.join(" ; ")), format!("score <= {sb}"), format!("score = {sa}"));
+                    }
+                    if law.shares_key && !law.stronger && law.touched == 1 && (sa - sb).abs() > SCORE_EPS {
+                        fail(&mut out, "repetition-changes-score", format!("an Assertion no stronger than the one group it joins changed the score; history: {}", ext_lines.join(" ; ")), format!("score = {sb}"), format!("score = {sa}"));
+                    }
+                    if law.shares_key && !law.stronger && law.touched > 1 && sa < sb - SCORE_EPS {
+                        out.bridge_lowered += 1;
+                    }
+                }
+            }
+
+            // (d) raise the confidence of one eligible Assertion
+            let &(ri, opposing) = rng.pick(&elig);
+            let old = st.effective_conf(ri);
+            let den = st.policy.den as i64;
+            if old < den {
+                let newc = rng.range(old.max(0) + 1, den.max(old.max(0) + 1));
+                let mut ext = parsed.clone();
+                ext.push(Op::Raise(ri, newc));
+                ext.push(Op::Project(target));
+                let outs = run_impl(world, &ext, &mut out);
+                let after = last_answers(&outs);
+                out.hits.push("derived:raise".into());
+                if let (Some(b), Some(a)) = (base_final.last(), after.last()) {
+                    let (gb, ga, sb, sa) = if opposing { (b.og, a.og, b.opp.value(), a.opp.value()) } else { (b.sg, a.sg, b.sup.value(), a.sup.value()) };
+                    let ext_lines: Vec<String> = ext.iter().map(|o| o.render()).collect();
+                    if ga != gb {
+                        fail(&mut out, "raise-changes-groups", format!("raising a confidence changed the grouping; history: {}", ext_lines.join(" ; ")), format!("{gb}"), format!("{ga}"));
+                    }
+                    if sa < sb - 1e-12 {
+                        fail(&mut out, "score-not-monotone", format!("raising a confidence lowered the score; history: {}", ext_lines.join(" ; ")), format!("score >= {sb}"), format!("score = {sa}"));
+                    }
+                }
+            }
+        }
+    }
+    out
+}
+
+/// The per-answer part of the oracle.
+fn check_answer(out: &mut Outcome, k: usize, line: &str, ans: &Ans, e: &Expect) {
+    let ctx = format!("op #{k} `{line}`");
+    // scores stay within [0,1]
+    for (name, s) in [("support", ans.sup.value()), ("opposition", ans.opp.value())] {
+        if !(0.0..=1.0).contains(&s) {
+            fail(out, "score-range", format!("{name} score outside [0,1] at {ctx}"), "0 <= score <= 1".into(), format!("{s}"));
+        }
+    }
+    // groups are the connected components
+    if ans.sg != e.sg || ans.og != e.og {
+        fail(out, "groups-not-components", format!("independent groups are not the connected components at {ctx}"), format!("support {} opposition {}", e.sg, e.og), format!("support {} opposition {}", ans.sg, ans.og));
+    }
+    // score = 1 - prod(1 - max_c) exactly (up to float rounding)
+    if (ans.sup.value() - e.sup.value()).abs() > SCORE_EPS || (ans.opp.value() - e.opp.value()).abs() > SCORE_EPS {
+        fail(out, "score-value", format!("score differs from 1 - prod(1 - strongest) at {ctx}"), format!("support {} opposition {}", e.sup.value(), e.opp.value()), format!("support {} opposition {}", ans.sup.value(), ans.opp.value()));
+    }
+    // silence is insufficient, never rejected
+    if e.no_eligible && ans.st != "insufficient" {
+        fail(out, "silence-not-insufficient", format!("no eligible Assertion bears on the Proposition or a rival, yet the status is not insufficient at {ctx}"), "insufficient".into(), ans.st.clone());
+    }
+    // rejection requires positive opposition
+    if ans.st == "rejected" && e.thresholds_ordered && !(ans.opp.value() > 0.0 && ans.og > 0) {
+        fail(out, "rejected-without-opposition", format!("rejected without positive opposition at {ctx}"), "opposition > 0 and at least one opposing group".into(), format!("opposition {} groups {}", ans.opp.value(), ans.og));
+    }
+    if ans.st == "rejected" && e.no_eligible {
+        fail(out, "silence-rejected", format!("silence was read as rejection at {ctx}"), "insufficient".into(), ans.st.clone());
+    }
+    // the classification by the policy's thresholds (exact scores; skipped on a threshold)
+    if !e.threshold_adjacent && ans.st != e.st {
+        fail(out, "status", format!("status differs from the threshold classification of the exact scores at {ctx}"), e.st.clone(), ans.st.clone());
+    }
+    // the ledger: who supports, opposes, hedges; who was excluded and why
+    if ans.s != e.s || ans.o != e.o || ans.u != e.u {
+        fail(out, "ledger", format!("ledger differs at {ctx}"), format!("S={:?} O={:?} U={:?}", e.s, e.o, e.u), format!("S={:?} O={:?} U={:?}", ans.s, ans.o, ans.u));
+    }
+    if ans.x != e.x {
+        fail(out, "excluded-ledger", format!("excluded Assertions are not listed with their reason at {ctx}"), format!("{:?}", e.x), format!("{:?}", ans.x));
+    }
+    // the answer names the policy that produced it
+    if ans.pol != e.pol {
+        fail(out, "policy-identity", format!("the answer does not name the policy it ran under at {ctx}"), e.pol.clone(), ans.pol.clone());
+    }
+    if ans.at != e.at {
+        fail(out, "valid-at", format!("the answer does not report the evaluation time at {ctx}"), e.at.to_string(), ans.at.to_string());
+    }
+}
+
+fn all_perms(n: usize) -> Vec<Vec<usize>> {
+    fn rec(cur: &mut Vec<usize>, used: &mut Vec<bool>, n: usize, out: &mut Vec<Vec<usize>>) {
+        if cur.len() == n {
+            out.push(cur.clone());
+            return;
+        }
+        for i in 0..n {
+            if !used[i] {
+                used[i] = true;
+                cur.push(i);
+                rec(cur, used, n, out);
+                cur.pop();
+                used[i] = false;
+            }
+        }
+    }
+    let mut out = Vec::new();
+    rec(&mut Vec::new(), &mut vec![false; n], n, &mut out);
+    out
+}
+
+pub fn fnv(s: &str) -> u64 {
+    let mut h: u64 = 0xcbf2_9ce4_8422_2325;
+    for b in s.bytes() {
+        h ^= b as u64;
+        h = h.wrapping_mul(0x0000_0100_0000_01B3);
+    }
+    h
+}
+
+// ---------------------------------------------------------------------------------------------
+// driver
+// ---------------------------------------------------------------------------------------------
+
+enum Job {
+    Case { label: String, lines: Vec<String>, kml: bool, deep: bool },
+}
+
+struct Done {
+    label: String,
+    lines: Vec<String>,
+    out: Outcome,
+}
+
+fn worker(args: Args, rx: std::sync::Arc<std::sync::Mutex<mpsc::Receiver<Job>>>, tx: mpsc::Sender<Done>) {
+    let rt = tokio::runtime::Builder::new_current_thread().enable_all().build().expect("runtime");
+    let mut world = World::new(rt);
+    let mut model = ModelProc::from_args(&args);
+    loop {
+        let job = { rx.lock().unwrap().recv() };
+        let Ok(Job::Case { label, lines, kml, deep }) = job else { break };
+        let mut out = check_case(&mut world, &mut model, &lines, kml, deep);
+        let mut lines = lines;
+        // shrink what failed, keeping the same failure key (or the disagreement)
+        if let Some(f) = out.failures.first().cloned() {
+            let key = f.key.clone();
+            let small = vh_common::shrink(lines.clone(), |cand| {
+                let cand: Vec<String> = cand.to_vec();
+                check_case(&mut world, &mut None, &cand, kml, deep).failures.iter().any(|g| g.key == key)
+            }, 200);
+            if small.len() < lines.len() {
+                let again = check_case(&mut world, &mut model, &small, kml, deep);
+                if again.failures.iter().any(|g| g.key == key) {
+                    let (runs, cmp) = (out.impl_runs, out.model_compared);
+                    out = again;
+                    out.impl_runs += runs;
+                    out.model_compared += cmp;
+                    lines = small;
+                }
+            }
+        } else if out.disagreement.is_some() && model.is_some() {
+            let small = vh_common::shrink(lines.clone(), |cand| {
+                let cand: Vec<String> = cand.to_vec();
+                check_case(&mut world, &mut model, &cand, kml, false).disagreement.is_some()
+            }, 200);
+            if small.len() < lines.len() {
+                let again = check_case(&mut world, &mut model, &small, kml, false);
+                if again.disagreement.is_some() {
+                    out.disagreement = again.disagreement;
+                    lines = small;
+                }
+            }
+        }
+        if tx.send(Done { label, lines, out }).is_err() {
+            break;
+        }
+    }
+}
+
 fn main() {
-    let a = vh_common::Args::parse();
-    let r = vh_common::Report::new("C20", &a, "stub");
-    r.write(&a);
+    let args = Args::parse();
+    let mut report = Report::new(
+        "C20",
+        &args,
+        "a case is non-trivial when at least one projection in it has an eligible group, an uncertain assertor or an excluded Assertion (i.e. the answer is not the empty-history `insufficient`)",
+    );
+    std::panic::set_hook(Box::new(|_| {}));
+
+    let threads = std::thread::available_parallelism().map(|n| n.get()).unwrap_or(4).min(16);
+    let (job_tx, job_rx) = mpsc::channel::<Job>();
+    let job_rx = std::sync::Arc::new(std::sync::Mutex::new(job_rx));
+    let (done_tx, done_rx) = mpsc::channel::<Done>();
+    let mut handles = Vec::new();
+    for _ in 0..threads {
+        let (a, rx, tx) = (args.clone(), job_rx.clone(), done_tx.clone());
+        handles.push(std::thread::spawn(move || worker(a, rx, tx)));
+    }
+    drop(done_tx);
+
+    let mut n_jobs = 0u64;
+    let mut send = |label: String, lines: Vec<String>, kml: bool, deep: bool| {
+        n_jobs += 1;
+        job_tx.send(Job::Case { label, lines, kml, deep }).expect("send job");
+    };
+
+    if let Some(path) = &args.replay {
+        let lines = vh_common::read_replay(path);
+        let kml = lines.iter().any(|l| l.starts_with("route kml"));
+        send("replay".into(), lines, kml, true);
+    } else {
+        // 1. corpus
+        if let Some(dir) = &args.corpus {
+            for (name, lines) in vh_common::read_corpus(dir) {
+                let kml = lines.iter().any(|l| l.starts_with("route kml"));
+                send(format!("corpus:{name}"), lines, kml, true);
+            }
+        }
+        // 2. bounded-exhaustive grouping: every sequence of up to `n` Assertions over 3 actors x
+        //    subsets of 3 Evidence ids (all orders are sequences), one side, confidences by position
+        let exhaustive_len = args.budget(3, 4) as usize;
+        for lines in ops::exhaustive_group_cases(exhaustive_len) {
+            send("exhaustive".into(), lines, false, false);
+        }
+        // 3. random histories through the store route, with derived histories
+        let n_random = args.budget(1500, 60_000);
+        for i in 0..n_random {
+            let mut rng = Rng::for_case(args.seed, i);
+            let lines = ops::random_case(&mut rng, i);
+            send(format!("random:{i}"), lines, false, true);
+        }
+        // 4. end to end through KML / KQL
+        let n_kml = args.budget(60, 1500);
+        for i in 0..n_kml {
+            let mut rng = Rng::for_case(args.seed ^ 0x6b6d6c, i);
+            let lines = ops::random_kml_case(&mut rng);
+            send(format!("kml:{i}"), lines, true, false);
+        }
+    }
+    drop(job_tx);
+
+    let mut f64_order_dependence = 0u64;
+    let mut threshold_adjacent = 0u64;
+    let mut bridge_lowered = 0u64;
+    let mut rival_unlisted = 0u64;
+    let mut impl_runs = 0u64;
+    let mut max_err = 0f64;
+    let mut kml_samples = 0;
+    let mut received = 0u64;
+    for done in done_rx.iter() {
+        received += 1;
+        let Done { label, lines, out } = done;
+        report.case(&out.canon, out.nontrivial);
+        report.model_compared += out.model_compared;
+        for h in &out.hits {
+            report.hit(h);
+        }
+        report.hit(&format!("route:{}", label.split(':').next().unwrap_or("?")));
+        if let Some((what, m, i)) = &out.disagreement {
+            report.disagreement(&format!("{label}: {what}"), &lines, m, i);
+        }
+        let mut seen = std::collections::BTreeSet::new();
+        for f in &out.failures {
+            if seen.insert(f.key.clone()) {
+                report.oracle_failure(&f.key, &format!("{label}: {}", f.what), &lines, &f.expected, &f.observed);
+            }
+        }
+        f64_order_dependence += out.f64_order_dependence;
+        threshold_adjacent += out.threshold_adjacent;
+        bridge_lowered += out.bridge_lowered;
+        rival_unlisted += out.rival_ineligible_unlisted;
+        impl_runs += out.impl_runs;
+        if out.f64_max_abs_err > max_err {
+            max_err = out.f64_max_abs_err;
+        }
+        if let Some(s) = out.sample {
+            if label.starts_with("kml") {
+                if kml_samples < 2 {
+                    kml_samples += 1;
+                    report.max_samples = 8;
+                    report.samples.push(s);
+                }
+            } else if received % 97 == 1 {
+                report.sample(s);
+            }
+        }
+    }
+    for h in handles {
+        let _ = h.join();
+    }
+    if received != n_jobs {
+        report.notes.push(format!("only {received} of {n_jobs} cases completed (a worker died)"));
+        report.oracle_failure("harness-incomplete", "a worker thread died", &[], &format!("{n_jobs}"), &format!("{received}"));
+    }
+    report.exhaustive = false;
+    report.measured.insert("f64_answers_differing_between_recording_orders_within_1e-9".into(), json!(f64_order_dependence));
+    report.measured.insert("projections_with_an_exact_score_on_a_threshold(status_not_compared_with_model)".into(), json!(threshold_adjacent));
+    report.measured.insert("max_abs_difference_f64_score_vs_exact_rational".into(), json!(max_err));
+    report.measured.insert("bridging_repetitions_that_lowered_the_score".into(), json!(bridge_lowered));
+    report.measured.insert("ineligible_rival_assertions_not_listed_as_excluded".into(), json!(rival_unlisted));
+    report.measured.insert("implementation_runs_including_derived_histories".into(), json!(impl_runs));
+    report.notes.push("scores are f64 in the code and exact fractions in the model/oracle: compared within 1e-9; a status exactly on a threshold is compared with neither".into());
+    report.write(&args);
 }
